@@ -137,6 +137,8 @@ type Exec struct {
 	predFamilies    map[string][]string
 	assumedSafe     map[string]bool
 	synthAlias      []synthAlias
+	premiseMode     bool
+	anchorPick      int
 	droppedLoops    map[int]bool
 	mergeMap        map[string][]mergeAlt
 	mergeSeq        []string
